@@ -82,3 +82,14 @@ class AnticipatedSizeConstraintExceededError(SizeConstraintViolatedError):
         self.violator_path = violator_path
         self.violator_value = violator_value
         self.exceeded_by = exceeded_by
+
+
+class ParameterEncryptionMismatchError(ConstraintViolatedError):
+    def __init__(self, path, expected, actual, **kwargs):
+        super().__init__(
+            f"Parsed response with parameter encryption = {expected}, but the sessionAttributes in {path} say encrypt = {actual}.",
+            **kwargs,
+        )
+        self.path = path
+        self.expected = expected
+        self.actual = actual
